@@ -21,7 +21,7 @@ var c06Cfg = kit.WorldCfg{
 		{Name: "holders", RefTo: "things", RefWiring: kit.WireFkIndexNullable}, // restrict
 		{Name: "owned", RefTo: "targets", RefWiring: kit.WireFkIndexCascade},   // deleted together with their target
 	},
-	Children: []kit.ChildCfg{{Name: "kids", Parent: "things"}},
+	Children: []kit.ChildCfg{{Name: "kids", Parent: "things", UniqueExtra: true}}, // the child store has a unique index of its own
 	Links: []kit.LinkCfg{
 		{A: "things", FieldA: "tlinks", B: "targets", FieldB: "plinks"},
 		{A: "things", FieldA: "rct", B: "targets", FieldB: "rcp", RefCounted: true},
@@ -123,7 +123,7 @@ func genC06(t *rapid.T) c06Case {
 			u.Aliases = []*string{nil, kit.Sp("al1"), kit.Sp("al2"), kit.Sp("al3")}
 			u.Roles = []string{"r1", "r2"}
 			u.Refs = refsTo("targets")
-			u.Extras = []string{"", "ex1"}
+			u.Extras = []string{"", "ex1", "ex2", "ex3"}
 		case "targets":
 			u.Roles = []string{"r1", "r2"}
 		case "deps", "holders":
